@@ -200,6 +200,21 @@ fn main() {
             for w in xw.iter().take(20) { nprop += 1; prop.push(json!({"case": {"extra": w}, "why": [w], "key": format!("syntargets-extra:{}", w)})); }
             println!("{}", json!({"cases": cases.len() as u64 + xn, "prop_mismatch": nprop, "model_drift": 0, "prop": prop, "model": [], "samples": samples, "counts": {"helper_and_collection_cases": xn}}));
         }
+        ("replay", "sequences") | ("replay", "generics") => {
+            let cases = load_cases(&args[3]);
+            let t = Templates::new();
+            let mut prop: Vec<Value> = vec![];
+            let mut model: Vec<Value> = vec![];
+            let (mut nprop, mut nmodel) = (0usize, 0usize);
+            let mut samples: Vec<Value> = vec![];
+            for (i, c) in cases.iter().enumerate() {
+                let (o, tag) = if args[2] == "sequences" { vh::sequences::replay_one(&t, c) } else { vh::generics::replay_one(c) };
+                if i % (cases.len() / 3).max(1) == 0 && samples.len() < 3 { samples.push(json!({"case": tag, "expect": c["expect"]})); }
+                if !o.prop.is_empty() { nprop += 1; if prop.len() < 60 { let mut w = o.prop; w.truncate(3); prop.push(json!({"case": c, "why": w, "key": format!("{}:{}", args[2], tag)})); } }
+                if !o.model.is_empty() { nmodel += 1; if model.len() < 5 { model.push(json!({"case": c, "why": o.model})); } }
+            }
+            println!("{}", json!({"cases": cases.len(), "prop_mismatch": nprop, "model_drift": nmodel, "prop": prop, "model": model, "samples": samples}));
+        }
         ("replay", "deriveopts") => {
             let cases = load_cases(&args[3]);
             let mut prop: Vec<Value> = vec![];
